@@ -89,7 +89,7 @@ struct req {           /* per-request application context */
 };
 
 struct conn {
-  int used, cfd, started, closed_seen, eof_seen, addr;
+  int used, cfd, sfd, started, closed_seen, eof_seen, addr;
   int nreq;                 /* requests presented so far */
   struct MHD_Connection *mc;
   int resume_in;            /* rounds until auto-resume; -1 none */
@@ -437,6 +437,21 @@ static void drain_clients (void)
   }
 }
 
+/* Interposed close() (same as in h_daemon.c): when the daemon closes the server side of a
+   connection that still has unread client data, an AF_UNIX peer gets ECONNRESET and may lose
+   reply bytes still queued towards it.  A real TCP client would have read them already;
+   emulate that by draining the client side just before the server-side descriptor is closed. */
+int close (int fd)
+{
+  static int (*real_close)(int);
+  int c;
+  if (NULL == real_close) real_close = (int (*)(int)) dlsym (RTLD_NEXT, "close");
+  for (c = 0; c < MAXC; c++)
+    if (conns[c].used && conns[c].sfd == fd && fd >= 0)
+    { drain_clients (); conns[c].sfd = -1; break; }
+  return real_close (fd);
+}
+
 static void report (void)
 {
   uint64_t to;
@@ -603,7 +618,7 @@ int main (void)
       memset (&sa, 0, sizeof(sa)); sa.sin_family = AF_INET; sa.sin_port = htons ((uint16_t) (1000 + a));
       sa.sin_addr.s_addr = htonl (0x0a000000u + (uint32_t) b);
       { int saved = conns[a].resume_in; (void) saved; }
-      conns[a].used = 1; conns[a].cfd = sv[0]; conns[a].addr = (int) b; conns[a].resume_in = -1;
+      conns[a].used = 1; conns[a].cfd = sv[0]; conns[a].sfd = sv[1]; conns[a].addr = (int) b; conns[a].resume_in = -1;
       q = MHD_add_connection (d, sv[1], (struct sockaddr *) &sa, sizeof(sa));
       out ("arrive c=%d -> %d", (int) a, (int) q);
       if (MHD_YES != q) { /* MHD closed sv[1] itself */ }
